@@ -406,6 +406,8 @@ class Linear(OpDef):
             for bias in (True, False):
                 for via in ("F", "M"):
                     out.append({"n": n, "in": i, "out": o, "bias": bias, "via": via})
+        out.append({"n": 2, "in": 2, "out": 2, "bias": True, "via": "F", "lead": [2]})
+        out.append({"n": 1, "in": 2, "out": 1, "bias": False, "via": "F", "lead": [2]})
         out.append({"n": 2, "in": 3, "out": 1, "bias": True, "via": "Neuron"})
         out.append({"n": 2, "in": 3, "out": 1, "bias": False, "via": "Neuron"})
         return out
@@ -414,7 +416,8 @@ class Linear(OpDef):
         return [{"n": 2, "in": 3, "out": 2, "bias": True, "via": "M", "xin": 2}]
 
     def inputs(self, args):
-        ins = [Inp("x", (args["n"], args.get("xin", args["in"]))), Inp("w", (args["out"], args["in"]), param=True)]
+        lead = tuple(args.get("lead", ()))      # extra leading batch dimensions (functional API only)
+        ins = [Inp("x", lead + (args["n"], args.get("xin", args["in"]))), Inp("w", (args["out"], args["in"]), param=True)]
         if args["bias"]:
             ins.append(Inp("b", (args["out"],), param=True))
         return ins
@@ -433,13 +436,14 @@ class Linear(OpDef):
 
     def reference(self, args, xs, extra):
         x, w = xs[0], xs[1]
-        o = objarr((args["n"], args["out"]))
-        for i in range(args["n"]):
+        lead = tuple(args.get("lead", ()))
+        o = objarr(lead + (args["n"], args["out"]))
+        for idx in np.ndindex(*(lead + (args["n"],))):
             for j in range(args["out"]):
-                v = ssum(x[i, k] * w[j, k] for k in range(args["in"]))
+                v = ssum(x[idx + (k,)] * w[j, k] for k in range(args["in"]))
                 if args["bias"]:
                     v = v + xs[2][j]
-                o[i, j] = v
+                o[idx + (j,)] = v
         return o
 
 
